@@ -15,7 +15,7 @@ Not decided: error kinds and messages; third-party impls; byte-level equality (C
 """
 from ..inline import inline_view
 from ..mir import AnchorLost
-from ..util import df_of, fn_short, in_set, uses_of_local, operand_path, path_last, backward_slice
+from ..util import upvar_names, closure_family, df_of, fn_short, in_set, uses_of_local, operand_path, path_last, backward_slice
 from ..shapes import Accept, SV, DV, impl_method, all_shapes
 
 N = "Native:"
@@ -394,6 +394,47 @@ def r6(ctx, facts):
         r.instance("finish-backpatches-length", ok, "CellValueBuilder::finish must back-patch the 4-byte length on every `write_size` path before returning the proof", b.span)
 
 
+def r7(ctx, facts):
+    r = ctx.rule("R7", "paged row stream: a page is marked type-checked only after its type check succeeded, and rows are deserialized only from checked pages", floor=3)
+    bs = facts.find(r"TypedRowStream<RowT> as futures_core::stream::Stream>::poll_next$") or facts.find(r"TypedRowStream.*::poll_next$")
+    if len(bs) != 1:
+        raise AnchorLost("TypedRowStream::poll_next not found (%d)" % len(bs))
+    fam = closure_family(facts, bs[0])
+    found = 0
+    for b in fam:
+        df = df_of(b, facts)
+        up = upvar_names(facts, b)
+
+        def is_flag(path):
+            """the place is the stream's current_page_typechecked, directly or through a captured `&mut`"""
+            if path_last(path) == "current_page_typechecked":
+                return True
+            return path[0] == 1 and len(path[1]) == 1 and path[1][0].isdigit() and up.get(int(path[1][0])) == "current_page_typechecked"
+        tcs = [c for c in b.calls_to("ColumnIterator::<'frame, 'metadata>::type_check", "ColumnIterator::type_check") if True]
+        tcs = tcs or [c for bb0, c in b.calls() if bb0 in b.live_blocks and (c.name or "").endswith("::type_check") and "ColumnIterator" in (c.name or "")]
+        stores = [(bb, j, st) for bb in sorted(b.live_blocks) for j, st in enumerate(b.stmts(bb))
+                  if st[0] == "A" and st[1][1] and is_flag(df.canon.path(st[1])) and st[2][0] == "use" and st[2][1][0] == "k" and str(st[2][1][3]) in ("1", "true")]
+        if not tcs and not stores:
+            continue
+        found += 1
+        r.instance("type_check-called", len(tcs) >= 1, "poll_next must type-check each fresh page (ColumnIterator::type_check::<RowT>)", b.span)
+        # the `?` on the type_check result: Continue edge
+        brs = [c for c in b.calls_to("core::ops::try_trait::Try::branch") if any(t.dest[0] in backward_slice(b, c.args[0])[0] for t in tcs)]
+        for bb, j, st in stores:
+            stt = df.state_before_stmt(bb, j) or {}
+            passed = any(in_set(stt.get(("disc", (br.dest[0], ()))), {0}) for br in brs)
+            r.instance("checked-flag-set-after-success", passed,
+                       "current_page_typechecked = true is stored where the type check of this page has not (yet) succeeded: after a failed check the remaining rows of the page would be deserialized unchecked", b.stmt_span(st))
+        des = [c for bb0, c in b.calls() if bb0 in b.live_blocks and c.decl == "scylla_cql_core::deserialize::row::DeserializeRow::deserialize"]
+        for c in des:
+            stt = df.state_in.get(c.bb) or {}
+            okd = any(k[0] == "val" and is_flag(k[1]) and in_set(v, {1}) for k, v in stt.items()) or \
+                any(in_set(stt.get(("disc", (br.dest[0], ()))), {0}) for br in brs)
+            r.instance("rows-only-from-checked-page", okd, "a row is deserialized where the page is not known to be type-checked", c.span)
+    if not found:
+        raise AnchorLost("no type_check / checked-flag store found in TypedRowStream::poll_next")
+
+
 def switch_edges_local(b, bb):
     t = b.term(bb)
     return {int(v): tg for v, tg in t[2]}, t[3]
@@ -402,7 +443,7 @@ def switch_edges_local(b, bb):
 def check(ctx):
     facts = inline_view(ctx.facts("default"))
     config = ctx.alias.get("default", "default")   # the thorough tier re-runs this module over `full` and `unstable`
-    for fn in (lambda c, f: r1_r2(c, f, config), r3, r4, r5, r6):
+    for fn in (lambda c, f: r1_r2(c, f, config), r3, r4, r5, r6, r7):
         try:
             fn(ctx, facts)
         except AnchorLost as ex:
